@@ -1048,7 +1048,6 @@ func c04EverySection(c *Ctx) {
 	}
 }
 
-
 // isErrorReturn: the return reports an error on every path that reaches it — its last result is a freshly built error, or a
 // value the path conditions establish to be non-nil. A forwarded callee error (`return g(..)`) is not an error return.
 func isErrorReturn(p *Prog, ret *retInfo) bool {
@@ -1069,7 +1068,6 @@ func isErrorReturn(p *Prog, ret *retInfo) bool {
 	ok, _ := everyDisjunctHas(d, []string{term(last) + " != nil"})
 	return ok
 }
-
 
 // c04ReadAfterDelete: the helpers that undo a block run with the revert's batch as their writer and — in the legacy backend —
 // an indexed view of that same batch as their reader. A step that reads a bucket which an EARLIER step of the same function
